@@ -400,6 +400,8 @@ def tags_of(case):
 
 
 def ident(case):
+    if case.get("origin") and case.get("kind") not in ("corpus", "corpus-set", "corpus-wasm", "set"):
+        return "%s %s #%s" % (case.get("kind", "?"), case["origin"], case.get("id"))
     return "%s %s" % (case.get("kind", "?"), case.get("origin") or case.get("id"))
 
 
@@ -411,7 +413,10 @@ class Findings:
         self.by_sig = {}
 
     def add(self, sig, kind, key, detail):
-        self.by_sig.setdefault(sig, []).append((kind, key, detail))
+        q = self.by_sig.setdefault(sig, [])
+        if any(k == kind and ky == key for k, ky, _ in q):
+            return          # the same input and clause once
+        q.append((kind, key, detail))
 
     def counts(self):
         return {(" / ".join(map(str, k)) if isinstance(k, tuple) else str(k)): len(v) for k, v in self.by_sig.items()}
